@@ -248,7 +248,15 @@ pub fn oracle_c07(line: &str) -> String {
             let c = c.read().unwrap();
             for e in &c.layout.as_ref().unwrap().elems {
                 if e.net.is_some() {
-                    match label_loc(&e.inner) { Some(l) if e.inner.contains(&l) => {}, _ => return format!("fail label of {} not inside its shape", shape_s(&e.inner)) }
+                    // containment is judged independently of the code's own `contains` (exact even-odd test)
+                    let inside = |l: &raw::Point| -> bool {
+                        match &e.inner {
+                            raw::Shape::Rect(r) => r.p0.x.min(r.p1.x) <= l.x && l.x <= r.p0.x.max(r.p1.x) && r.p0.y.min(r.p1.y) <= l.y && l.y <= r.p0.y.max(r.p1.y),
+                            raw::Shape::Polygon(pg) => crate::props::c13::ref_poly(&pg.points.iter().map(|q| (q.x as i64, q.y as i64)).collect::<Vec<_>>(), (l.x as i64, l.y as i64)),
+                            other => other.contains(l),
+                        }
+                    };
+                    match label_loc(&e.inner) { Some(l) if inside(&l) => {}, _ => return format!("fail label of {} not inside its shape", shape_s(&e.inner)) }
                 }
             }
         }
@@ -468,7 +476,22 @@ fn gen_raw_shape(rng: &mut Rng, ox: i64, oy: i64) -> String {
     let t = |v: Vec<P2>| -> Vec<P2> { v.into_iter().map(|p| (p.0 + ox, p.1 + oy)).collect() };
     match rng.below(8) {
         0 | 1 => { let (a, b) = ((rng.range(0, 8), rng.range(0, 8)), (rng.range(9, 18), rng.range(9, 18))); let (a, b) = if rng.coin() { (a, b) } else { (b, a) }; format!("(rect {} {} {} {})", a.0 + ox, a.1 + oy, b.0 + ox, b.1 + oy) }
-        2 => { let a = rng.range(6, 16); let w = rng.range(1, a / 2 - 1).max(1); format!("(polygon {})", fmt_shape_pts(&t(vec![(0, 0), (0, a), (w, a), (w, w), (a - w, w), (a - w, a), (a, a), (a, 0)]))) } // U
+        2 => if rng.coin() { let a = rng.range(6, 16); let w = rng.range(1, a / 2 - 1).max(1); format!("(polygon {})", fmt_shape_pts(&t(vec![(0, 0), (0, a), (w, a), (w, w), (a - w, w), (a - w, a), (a, a), (a, 0)]))) } else {
+            // U / comb with arms of different heights and an off-centre notch, in all eight orientations,
+            // from any start vertex, in both windings: the bounding-box centre often falls in the notch,
+            // level with the top of the shorter arm
+            let (w, base) = (rng.range(8, 20), rng.range(1, 4));
+            let (h1, h2) = (base + rng.range(1, 12), base + rng.range(1, 12));
+            let a1 = rng.range(1, w / 2 - 1).max(1);
+            let a2 = rng.range(1, w - a1 - 2).max(1);
+            let mut q: Vec<P2> = vec![(0, 0), (0, h1), (a1, h1), (a1, base), (w - a2, base), (w - a2, h2), (w, h2), (w, 0)];
+            let sym = rng.below(8);
+            q = q.into_iter().map(|(x, y)| { let (x, y) = if sym & 1 != 0 { (-x, y) } else { (x, y) }; let (x, y) = if sym & 2 != 0 { (x, -y) } else { (x, y) }; if sym & 4 != 0 { (y, x) } else { (x, y) } }).collect();
+            if rng.coin() { q.reverse(); }
+            let r = rng.below(q.len() as u64) as usize;
+            q.rotate_left(r);
+            format!("(polygon {})", fmt_shape_pts(&t(q)))
+        }, // U
         3 => { let a = rng.range(4, 16); let w = rng.range(1, a - 1).max(1); format!("(polygon {})", fmt_shape_pts(&t(vec![(0, 0), (a, 0), (a, w), (w, w), (w, a), (0, a)]))) } // L
         4 => { let r = rng.range(2, 8); let c = rng.range(1, r); format!("(polygon {})", fmt_shape_pts(&t(vec![(c, 0), (r, 0), (r + c, c), (r + c, r), (r, r + c), (c, r + c), (0, r), (0, c)]))) } // 45°
         5 => if rng.coin() { format!("(polygon {})", fmt_shape_pts(&t(vec![(0, 0), (rng.range(6, 16), rng.range(1, 5)), (rng.range(1, 5), rng.range(8, 16))]))) } else {
